@@ -174,6 +174,9 @@ func (s *Server) Run(addr string, opt ...Option) error {
 		connID++
 		select {
 		case <-s.shutdownCtx.Done():
+			// Stop may have run before the listener existed, so make sure
+			// it's not left open (closing it twice is harmless)
+			_ = s.listener.Close()
 			return nil
 		default:
 			// need a default to fall through to rest of loop...
